@@ -90,6 +90,9 @@ pub struct World {
   /// entries whose cached bytes were tampered with (a cache-bypassing reload serves the real bytes)
   pub tampered: Vec<usize>,
   pub has_locker: bool,
+  /// entries for which a cache-bypassing load answers a redirect (the server changed since the
+  /// cached copy was made): (entry, redirect target)
+  pub reload_redirect: Vec<(usize, usize)>,
 }
 
 impl Default for World {
@@ -104,6 +107,7 @@ impl Default for World {
       lock: vec![],
       tampered: vec![],
       has_locker: false,
+      reload_redirect: vec![],
     }
   }
 }
@@ -815,6 +819,11 @@ impl<'w> ScriptedLoader<'w> {
       return Ok(None);
     };
     let r = &self.world.resp[i];
+    if cache_setting == CacheSetting::Reload {
+      if let Some((_, t)) = self.world.reload_redirect.iter().find(|(e, _)| *e == i) {
+        return Ok(Some(LoadResponse::Redirect { specifier: self.world.specs[*t].clone() }));
+      }
+    }
     match r {
       Resp::Module { final_spec, headers, .. } => {
         let content = self.world.served(i, cache_setting == CacheSetting::Reload).unwrap();
